@@ -482,16 +482,17 @@ def mutual_removal(ctx, res):
 # slice kind.
 
 def _producers_emit_slices(repo):
-    """does some TraitList mutator pass a slice-valued index to notify()?"""
+    """the producer side: TraitList normalises keys into int-or-slice
+    indices (`_normalize_slice_or_index` builds slices) and notifies"""
     rel = "traits/trait_list_object.py"
     mod = repo.module(rel)
-    for f in ("TraitList.__setitem__", "TraitList.__delitem__"):
-        fn = repo.func(rel, f)
-        for c in ast.walk(fn):
-            if isinstance(c, ast.Call) and isinstance(c.func, ast.Attribute) \
-                    and c.func.attr == "notify":
-                return True
-    return False
+    fn = mod.functions.get("_normalize_slice_or_index")
+    builds = fn is not None and any(
+        isinstance(c, ast.Call) and norm(c.func) == "slice"
+        for c in ast.walk(fn))
+    notifies = any(isinstance(c, ast.Call) and isinstance(c.func, ast.Attribute)
+                   and c.func.attr == "notify" for c in ast.walk(mod.tree))
+    return builds and notifies
 
 
 @rule("C20.items-index-kinds", ["C20", "C05"],
@@ -504,7 +505,7 @@ def items_index_kinds(ctx, res):
     from ..pycfg import build_cfg
     repo = get_pyrepo(ctx)
     if not _producers_emit_slices(repo):
-        raise AnalysisError("TraitList.__setitem__/__delitem__: notify sites")
+        raise AnalysisError("trait_list_object: slice-index producer not found")
     n = 0
     for rel, mod in sorted(repo.modules.items()):
         if "/tests/" in rel or ".index" not in mod.src:
